@@ -60,19 +60,21 @@ def task_volume_model():
         return a.store.val if isinstance(a, cx.NDArr) else None
 
     def getprop(r, name):
-        """evaluate the real property getter on the constructed object"""
-        it = cx.Interp(cx.Ctx([], r.pc), 'models')
-        return it.getattr(r.state['__self__'], name)
+        """evaluate the real (public) property getter on the constructed object; the events of the getter are kept"""
+        ctx = cx.Ctx([], r.pc)
+        it = cx.Interp(ctx, 'models')
+        v = it.getattr(r.state['__self__'], name)
+        r.state.setdefault('getter_events', []).extend(ctx.events)
+        return v
 
     def eta_ok(r):
         vm = r.state['__self__']
         gs = []
         for d in 'xyz':
             p = r.state['props']['property_' + d]
-            got = vm.fields.get('_eta_' + d)
             if p is None:
-                gs.append(z3.BoolVal(got is None))
-                continue
+                continue              # (falls back to eta_x: aliasing clause)
+            got = getprop(r, 'eta_' + d)
             if not isinstance(got, cx.NDArr) or val(got) is None:
                 return False
             sig = BW(p.store.val)
@@ -82,7 +84,7 @@ def task_volume_model():
     clause(col, 'eta_is_minus_s_mu0_V_sigma_plus_s_eps', res, eta_ok, sample=True)
 
     def zeta_ok(r):
-        z = r.state['__self__'].fields.get('_zeta')
+        z = getprop(r, 'zeta')
         if not isinstance(z, cx.NDArr) or val(z) is None:
             return False
         return val(z) == (V / z3.Real('mu_r') if r.state['has_mu'] else V)
@@ -91,20 +93,25 @@ def task_volume_model():
     def alias_ok(r):
         case = r.state['case']
         ex, ey, ez, ze = (getprop(r, n) for n in ('eta_x', 'eta_y', 'eta_z', 'zeta'))
-        vm = r.state['__self__'].fields
-        ok = ex is vm['_eta_x'] and ze is vm['_zeta']
-        ok = ok and (ey is (vm['_eta_y'] if case in ('HTI', 'triaxial') else vm['_eta_x']))
-        ok = ok and (ez is (vm['_eta_z'] if case in ('VTI', 'triaxial') else vm['_eta_x']))
-        return ok
+        if not all(isinstance(a, cx.NDArr) for a in (ex, ey, ez, ze)):
+            return False
+        same = lambda a, b: a is b or a.store is b.store
+        ok = same(ey, ex) == (case not in ('HTI', 'triaxial')) and same(ez, ex) == (case not in ('VTI', 'triaxial'))
+        return ok and not same(ze, ex)
     clause(col, 'eta_y_eta_z_fall_back_to_eta_x_exactly_for_the_documented_cases', res, alias_ok)
 
     def own_ok(r):
-        vm = r.state['__self__'].fields
-        stores = [vm[k].store for k in ('_eta_x', '_eta_y', '_eta_z', '_zeta') if isinstance(vm.get(k), cx.NDArr)]
-        distinct = len({s.uid for s in stores}) == len(stores)
+        got = [getprop(r, n) for n in ('eta_x', 'eta_y', 'eta_z', 'zeta')]
+        stores = list({a.store.uid: a.store for a in got if isinstance(a, cx.NDArr)}.values())
+        case = r.state['case']
+        distinct = len(stores) == 2 + (case in ('HTI', 'triaxial')) + (case in ('VTI', 'triaxial'))
         inputs = {a.store.uid for a in list(r.state['props'].values()) + r.state['grid'].fields['h'] if isinstance(a, cx.NDArr)}
         no_share = all(s.uid not in inputs for s in stores)
-        frame = all(e['store'].uid not in inputs for e in r.mutations())
+        muts = [e for e in list(r.events) + r.state.get('getter_events', []) if e['kind'] == 'mutate']
+        frame = all(e['store'].uid not in inputs for e in muts)
+        if any(e['kind'] == 'setattr' and e['obj'] is r.state['model'] for e in list(r.events) + r.state.get('getter_events', [])):
+            from .cxutil import UNRECOGNISED
+            return UNRECOGNISED('state is stored on the input model: whether it can go stale is outside this contract (the bounded concrete check edits the model in place)')
         return distinct and no_share and frame
     clause(col, 'coefficient_arrays_are_distinct_fresh_storages__input_model_and_grid_not_written', res, own_ok)
     return col.pack()
